@@ -132,7 +132,7 @@ def check(ctx: Ctx) -> None:
             m = repo.cls("MainThreadOnlyExecModel").methods["start"]
             if [unparse(c.func) for c in repo.calls_in(m)] != ["_thread.start_new_thread"]:
                 ob.violation(m, m.node, "MainThreadOnlyExecModel.start does not use daemonic low-level threads")
-        for fi in repo.funcs.values():
+        for fi in repo.scan_funcs():
             if fi.module.name == GB:
                 for c in repo.calls_in(fi):
                     if unparse(c.func) in ("threading.Thread", "Thread"):
